@@ -25,6 +25,10 @@ def main(chk, tier):
         if r not in (0, 1):
             chk.die(f"C16: fipsim c16 ({flavour}) exited {r}")
         rc = max(rc, r)
+    # third build: whole-program optimisation, no unwinding - where a non-volatile wipe is a dead store
+    r, part = dropspy(chk, tier)
+    rc = max(rc, r)
+    parts.append(part)
     extra = {}
     if tier == "thorough":
         extra["miri"] = miri(chk)
@@ -32,6 +36,72 @@ def main(chk, tier):
             rc = 1
     chk.merge_parts("C16", tier, parts, t0, extra=extra)
     return rc
+
+
+def dropspy(chk, tier):
+    """Keys dropped the way applications drop them (Box freed) in an LTO + panic=abort build; the freed
+    memory is read back through /proc/self/mem, which the optimiser cannot see. Bytes beyond the first 64
+    of a freed block (the allocator's own free-list links) must all be zero."""
+    import subprocess
+    t0 = time.time()
+    binp, _ = chk.cargo_build("dropspy", "release")
+    if binp is None:
+        chk.die("C16: dropspy build failed")
+    p = subprocess.run([binp], stdout=subprocess.PIPE, stderr=subprocess.STDOUT, text=True, env=chk.ENV)
+    cases = [l.split() for l in p.stdout.splitlines() if l.startswith("CASE ")]
+    if p.returncode != 0 or "DONE" not in p.stdout or len(cases) < 3:
+        chk.die("C16: dropspy did not run to completion:\n" + p.stdout[-1500:])
+    bad = []
+    sigs = []
+    for c in cases:
+        name = c[1]
+        kv = dict(x.split("=") for x in c[2:])
+        sigs.append("dropspy|" + name)
+        if int(kv["nonzero"]) > 0:
+            bad.append((name, kv))
+    rc = 0
+    known = json.load(open(chk.KNOWN)).get("known", []) if os.path.exists(chk.KNOWN) else []
+    os.makedirs(chk.replay_dir(), exist_ok=True)
+    new = 0
+    for name, kv in bad[:4]:
+        key = "not-erased-after-free:" + name.split("/")[1]
+        k = [e for e in known if e.get("property") == "C16" and e.get("key") == key]
+        if k:
+            print(f"KNOWN-FINDING: property=C16 {k[0].get('what')} [{key}]")
+            continue
+        new += 1
+        rc = 1
+        path = os.path.join(chk.replay_dir(), f"C16-lto-abort-{chk.SEED}-{new}.json")
+        json.dump({"property": "C16", "invariant": "not-erased-after-free", "finding_key": key, "flavour": "lto-abort", "case": name,
+                   "observed": f"{kv['nonzero']} of {kv['size']} bytes of the freed {name} object are non-zero (first at offset {kv['first']}) in an LTO, panic=abort, opt-level 3 build",
+                   "expected": "every byte of the dropped key object is zero"}, open(path, "w"), indent=1)
+        print(f"VIOLATION property=C16 replay={path}")
+        print(f"  invariant=not-erased-after-free case={name} nonzero={kv['nonzero']}/{kv['size']}")
+    part = chk.part_path("C16", "lto-abort")
+    json.dump({"property_id": "C16", "tier": tier, "seed": int(chk.SEED), "level": "exploration",
+               "coverage": {"evaluations": len(cases), "distinct_nontrivial": len(sigs), "signatures": sigs, "rule": "", "samples": [" ".join(c) for c in cases[:3]],
+                            "flavour": "lto-abort", "dropspy_cases": len(cases), "dropspy_violating_cases": len(bad)},
+               "assumptions": ["dropspy: the first 64 bytes of a freed heap block belong to the allocator (free-list links) and are not judged"],
+               "wall_s": round(time.time() - t0, 2), "violations": new}, open(part, "w"))
+    return rc, part
+
+
+def dropspy_replay(chk, path, body):
+    import subprocess
+    binp, _ = chk.cargo_build("dropspy", "release")
+    if binp is None:
+        chk.die("C16 replay: dropspy build failed")
+    p = subprocess.run([binp], stdout=subprocess.PIPE, stderr=subprocess.STDOUT, text=True, env=chk.ENV)
+    for l in p.stdout.splitlines():
+        f = l.split()
+        if l.startswith("CASE ") and f[1] == body.get("case"):
+            kv = dict(x.split("=") for x in f[2:])
+            if int(kv["nonzero"]) > 0:
+                print(f"VIOLATION property=C16 replay={path}")
+                print(f"  invariant=not-erased-after-free case={f[1]} nonzero={kv['nonzero']}/{kv['size']}")
+                return 1
+    print(f"REPLAY property=C16 file={path}: no violation reproduced")
+    return 0
 
 
 def miri(chk):
